@@ -32,3 +32,6 @@ def decode_instruction(instr):
         # Debug hint
         # armv7, will not be implemented
         raise NotImplementedError()
+    else:
+        # unallocated hints execute as NOPs
+        return NopT2
